@@ -50,8 +50,15 @@ func (w *World) registerResource(op *RegOp) {
 	case "nonstruct":
 		n := 7
 		ctrl = &n
+	case "ptrptr":
+		pp := reflect.New(reflect.TypeOf(ctrl))
+		pp.Elem().Set(reflect.ValueOf(ctrl))
+		ctrl = pp.Interface() // **Struct: a pointer, but not to a struct
 	}
 	w.R.Resource(op.Path, ctrl, w.hs(op.MW)...)
+	if op.Again != "" {
+		w.R.Resource(op.Again, ctrl, w.hs(op.MW)...)
+	}
 }
 
 func hasAct(mask int, name string) bool {
@@ -117,8 +124,11 @@ func genC16(concurrent bool) func(rng *Rng, sc *Scenario) {
 		if rng.Chance(1, 3) {
 			op.Path = "/api/"
 		}
-		if rng.Chance(1, 3) {
-			op.MW = []string{"m0"}
+		for i, n := 0, rng.Intn(3); i < n; i++ {
+			op.MW = append(op.MW, fmt.Sprintf("m%d", i))
+		}
+		if rng.Chance(1, 5) {
+			op.Again = "/adm/"
 		}
 		if withUses {
 			op.Uses = map[string][]string{}
@@ -132,7 +142,7 @@ func genC16(concurrent bool) func(rng *Rng, sc *Scenario) {
 			}
 		}
 		if rng.Chance(1, 40) {
-			op.Kind = rng.Pick([]string{"nonptr", "nonstruct"})
+			op.Kind = rng.Pick([]string{"nonptr", "nonstruct", "ptrptr"})
 		}
 		base := op.Path
 		prog := []RegOp{}
@@ -143,7 +153,11 @@ func genC16(concurrent bool) func(rng *Rng, sc *Scenario) {
 			prog = append(prog, RegOp{Op: "route", Via: "verb", Methods: []string{"GET"}, Path: "/other", H: "h0"})
 		}
 		if rng.Chance(1, 3) {
-			prog = append(prog, RegOp{Op: "group", Path: "/v1", MW: nil, Body: []RegOp{op}})
+			g := RegOp{Op: "group", Path: "/v1", Body: []RegOp{op}}
+			for i, n := 0, rng.Intn(3); i < n; i++ {
+				g.MW = append(g.MW, fmt.Sprintf("m%d", 10+i))
+			}
+			prog = append(prog, g)
 			base = "/v1" + strings.TrimSuffix(op.Path, "/") + "/"
 		} else {
 			prog = append(prog, op)
@@ -167,6 +181,9 @@ func genC16(concurrent bool) func(rng *Rng, sc *Scenario) {
 		for _, m := range c16Methods {
 			for _, rel := range c16Rels {
 				probes = append(probes, Req{Method: m, Path: res + rel})
+				if op.Again != "" && rng.Chance(1, 2) {
+					probes = append(probes, Req{Method: m, Path: strings.TrimSuffix(base, op.Path) + op.Again + strings.ToLower(ctrlTag(&op)) + rel})
+				}
 			}
 		}
 		probes = append(probes, Req{Method: "GET", Path: "/other"}, Req{Method: "GET", Path: res + "x"})
@@ -188,22 +205,27 @@ func genC16(concurrent bool) func(rng *Rng, sc *Scenario) {
 	}
 }
 
-func findResource(ops []RegOp, prefix string) (*RegOp, string) {
+func findResource(ops []RegOp, prefix string) (*RegOp, []string) {
 	for i := range ops {
 		switch ops[i].Op {
 		case "resource":
-			return &ops[i], prefix + strings.TrimSuffix(ops[i].Path, "/") + "/" + strings.ToLower(ctrlTag(&ops[i]))
+			tag := strings.ToLower(ctrlTag(&ops[i]))
+			ps := []string{prefix + strings.TrimSuffix(ops[i].Path, "/") + "/" + tag}
+			if ops[i].Again != "" {
+				ps = append(ps, prefix+strings.TrimSuffix(ops[i].Again, "/")+"/"+tag)
+			}
+			return &ops[i], ps
 		case "group":
 			if op, p := findResource(ops[i].Body, prefix+ops[i].Path); op != nil {
 				return op, p
 			}
 		}
 	}
-	return nil, ""
+	return nil, nil
 }
 
 func c16Judge(sc *Scenario) (viol []Violation, res *RunResult, nontrivial bool) {
-	op, resPath := findResource(sc.Program, "")
+	op, resPaths := findResource(sc.Program, "")
 	res = RunConcurrent(sc)
 	if op == nil {
 		return
@@ -233,14 +255,25 @@ func c16Judge(sc *Scenario) (viol []Violation, res *RunResult, nontrivial bool) 
 	tableMethods := map[string]string{"Index": "GET", "Create": "GET", "Store": "POST", "Show": "GET", "Edit": "GET", "Update": "PATCH,PUT", "Delete": "DELETE"}
 	var want []string
 	tag := strings.ToLower(ctrlTag(op))
-	for _, a := range restActions {
-		if hasAct(op.Ctrl, a) {
-			want = append(want, fmt.Sprintf("%s %s name=%s_%s", tableMethods[a], resPath+tablePath[a], tag, strings.ToLower(a)))
+	under := func(p string) string {
+		for _, rp := range resPaths {
+			if p == rp || strings.HasPrefix(p, rp+"/") {
+				return rp
+			}
+		}
+		return ""
+	}
+	for _, resPath := range resPaths {
+		for _, a := range restActions {
+			if hasAct(op.Ctrl, a) {
+				want = append(want, fmt.Sprintf("%s %s name=%s_%s", tableMethods[a], resPath+tablePath[a], tag, strings.ToLower(a)))
+			}
 		}
 	}
+	resPath := strings.Join(resPaths, " and ")
 	var got []string
 	for _, ri := range res.W.R.Routes() {
-		if !strings.HasPrefix(ri.Path, resPath) {
+		if under(ri.Path) == "" {
 			continue
 		}
 		ms := append([]string{}, ri.Methods...)
@@ -264,8 +297,10 @@ func c16Judge(sc *Scenario) (viol []Violation, res *RunResult, nontrivial bool) 
 			a := strings.TrimPrefix(name, tag+"_")
 			ok := false
 			for _, x := range restActions {
-				if strings.ToLower(x) == a && hasAct(op.Ctrl, x) && rt.Path() == resPath+tablePath[x] {
-					ok = true
+				for _, rp := range resPaths {
+					if strings.ToLower(x) == a && hasAct(op.Ctrl, x) && rt.Path() == rp+tablePath[x] {
+						ok = true
+					}
 				}
 			}
 			if !ok {
@@ -275,10 +310,16 @@ func c16Judge(sc *Scenario) (viol []Violation, res *RunResult, nontrivial bool) 
 	}
 	// 2. every probe reaches the documented action, with exactly its Uses() middleware
 	for _, rec := range res.All() {
-		if !strings.HasPrefix(rec.Path, resPath) {
+		rp := ""
+		for _, x := range resPaths {
+			if strings.HasPrefix(rec.Path, x) {
+				rp = x
+			}
+		}
+		if rp == "" {
 			continue
 		}
-		rel := strings.TrimPrefix(rec.Path, resPath)
+		rel := strings.TrimPrefix(rec.Path, rp)
 		wantAct, wantID := "", ""
 		if rel == "" || rel[0] == '/' {
 			wantAct, wantID = c16Expect(op.Ctrl, rec.Method, rel)
